@@ -1,7 +1,8 @@
 #!/usr/bin/env python3
 """Evaluate patches against the checks in a scratch copy (never touches /repo or /verif/evidence).
 
-usage: scratch_eval.py [--tier quick] [--keep] [--no-suite] <name>=<patch.diff>:<Cxx>[,<Cxx>...] ...
+usage: scratch_eval.py [--tier quick] [--keep] [--no-suite] <name>=<patch.diff>:<Cxx>[,<Cxx>...][:<demo.rs>] ...
+With a demo file (an integration test), it is copied to tests/seed_demo.rs and must FAIL with the patch and PASS without.
 For each patch: apply it to a scratch worktree of /repo HEAD, run the repository's own suite there (must pass for
 the patch to count as 'invisible to the tests'), build a scratch copy of the harness against the scratch repo and run
 the listed checks. Prints a table and writes /verif/.work/scratch_eval.json.
@@ -17,8 +18,10 @@ while args and args[0].startswith('--'):
 jobs = []
 for a in args:
     name, rest = a.split('=', 1)
-    patch, props = rest.rsplit(':', 1)
-    jobs.append((name, os.path.abspath(patch), props.split(',')))
+    parts = rest.split(':')
+    patch, props = parts[0], parts[1]
+    demo = os.path.abspath(parts[2]) if len(parts) > 2 else None
+    jobs.append((name, os.path.abspath(patch), props.split(','), demo))
 S = f"/tmp/hmc-scratch-{os.getpid()}"
 def sh(cmd, **kw): return subprocess.run(cmd, shell=True, capture_output=True, text=True, **kw)
 os.makedirs(S)
@@ -35,8 +38,16 @@ try:
     os.makedirs(f'{S}/verif'); shutil.copy('/verif/KNOWN_FINDINGS.txt', f'{S}/verif/')
     henv = dict(env, HMC_REPO=f'{S}/repo', HMC_VERIF=f'{S}/verif', CARGO_TARGET_DIR=f'{S}/target-h')
     renv = dict(env, CARGO_TARGET_DIR=f'{S}/target-r')
-    for name, patch, props in jobs:
+    def run_demo(demo):
+        shutil.copy(demo, f'{S}/repo/tests/seed_demo.rs')
+        r = sh(f"cd {S}/repo && cargo test --offline --test seed_demo 2>&1 | grep -E '^test result' | tail -1", env=renv)
+        os.remove(f'{S}/repo/tests/seed_demo.rs')
+        return r.stdout.strip()
+    for name, patch, props, demo in jobs:
         res = {'patch': patch, 'checks': {}}
+        if demo:
+            res['demo_without_patch'] = run_demo(demo)
+            print(f"[{name}] demo without patch: {res['demo_without_patch']}")
         r = sh(f"git -C {S}/repo apply {patch}")
         if r.returncode != 0:
             res['error'] = 'patch does not apply: ' + r.stderr.strip()[:300]; results[name] = res; print(name, res['error']); continue
@@ -47,6 +58,9 @@ try:
                 p_, f_ = (r.stdout.split() + ['0', '0'])[:2]
                 res['suite'] = {'passed': int(p_), 'failed': int(f_)}
                 print(f"[{name}] suite passed={p_} failed={f_} ({time.time()-t0:.0f}s)")
+            if demo:
+                res['demo_with_patch'] = run_demo(demo)
+                print(f"[{name}] demo with patch:    {res['demo_with_patch']}")
             b = sh(f"cd {S}/harness && cargo build --release --offline 2>&1 | tail -3", env=henv)
             if not os.path.exists(f'{S}/target-h/release/hmc'):
                 res['error'] = 'harness build failed: ' + b.stdout[-400:]; print(name, res['error'])
